@@ -34,7 +34,14 @@ def generate(ctx):
     cases = []
     for i in range(n_cases):
         ambiguous_corner = i % 15 == 7
-        if ambiguous_corner:
+        count_corner = i % 15 == 3
+        if count_corner:
+            # as many records as rows, unevenly spread, UNIQUE labels: a flat value has the frame's length but not its index
+            schema = gen.gen_schema(rng, 2)
+            lens = rng.choice([[2, 0, 1], [3, 0, 0], [0, 2, 1, 1], [0, 0, 3], [2, 0]])
+            rows = [{name: [gen.gen_value(rng, t) for _ in range(k)] for name, t in schema} for k in lens]
+            inp = ao.mk_input(rng, content=(schema, rows), recipes=[l for l in LAYOUTS if l != "history"])
+        elif ambiguous_corner:
             # repeated labels arranged so that the flat index of a genuinely flat value EQUALS the frame index
             # (row lengths [1,2,0] under labels [a,b,b], or [2,0] under [a,a]): the dispatch of frame['n.f'] = series
             schema = gen.gen_schema(rng, 2)
@@ -50,7 +57,9 @@ def generate(ctx):
         if inp["built"][0] != "ok":
             continue
         arr, n = inp["arr"], len(inp["rows"])
-        if not ambiguous_corner:
+        if count_corner:
+            labels, kind = gen.gen_labels(rng, n, rng.choice(["range", "unsorted_unique", "str"]))
+        elif not ambiguous_corner:
             labels, kind = gen.gen_labels(rng, n, rng.choice(["range", "unsorted_unique", "str", "repeats", "repeats"]))
         repeated = len(set(labels)) != len(labels)
         other_schema = [("q", "int64")]
@@ -62,7 +71,7 @@ def generate(ctx):
         before = snapshot_other(nf, "n")
         name, ty, existing = ao.new_field(rng, inp)
         form = rng.choice(["flat_array", "flat_series", "scalar", "base_aligned", "accessor_setitem", "accessor_scalar"])
-        if ambiguous_corner:
+        if ambiguous_corner or count_corner:
             form = "flat_series"
         fl = sum(ao.row_lengths(inp))
         ety = core.ETY[str(gen.TYPES[ty])]
